@@ -101,12 +101,32 @@ def execute(case):
         objs[i] = pj.Task(t["id"], name="T%d" % i, estimate=e, spent=case["vals"].get("%d.spent" % i))
     w = pj.WBS()
 
-    def attach(lst, numbers):
-        for c in numbers:
-            lst.append(objs[c])
-            attach(objs[c].children, I["tasks"][c - 1]["kids"])
+    # a summary that is re-parented AFTER the first query (ancestor chains must not be remembered)
+    late = None
+    if two_step and case["id"] % 3 == 0:
+        cands = [i for i, t in enumerate(I["tasks"], start=1) if t["kids"] and t["par"]]
+        late = cands[case["id"] % len(cands)] if cands else None
 
-    attach(w.roots, I["roots"])
+    def attach2(lst, numbers):
+        for c in numbers:
+            if c == late:
+                continue
+            lst.append(objs[c])
+            attach2(objs[c].children, I["tasks"][c - 1]["kids"])
+
+    attach2(w.roots, I["roots"])
+    if late is not None:
+        w.roots.append(objs[late])
+        attach2(objs[late].children, I["tasks"][late - 1]["kids"])
+    # successors OUTSIDE the WBS (another project, or a task removed from this one) do not belong to the network
+    if case["id"] % 5 == 0:
+        leaves = [i for i, t in enumerate(I["tasks"], start=1) if not t["kids"]]
+        other = pj.WBS()
+        x = other // pj.Task(9999, estimate=50)
+        x.predecessors = [objs[leaves[case["id"] % len(leaves)]]]
+        gone = w // pj.Task(9998, estimate=70)
+        gone.predecessors = [objs[leaves[0]]]
+        w.remove(gone)
 
     def link():
         for i, t in enumerate(I["tasks"], start=1):
@@ -119,6 +139,10 @@ def execute(case):
         es.guarded(lambda: [t for t in w.critical_path()], 5.0)
         for i, t in enumerate(I["tasks"], start=1):
             objs[i].estimate = case["vals"].get("%d.est" % i)
+        if late is not None:
+            sibs = I["tasks"][I["tasks"][late - 1]["par"] - 1]["kids"]
+            objs[late].parent = objs[I["tasks"][late - 1]["par"]]
+            objs[I["tasks"][late - 1]["par"]].children = [objs[c] for c in sibs]       # documented sibling order
     if mode != 2:
         link()
     case["before"] = es.project_wbs(w)
